@@ -13,7 +13,7 @@
    config types) is a separate engine of lib/props.d/C16.json. *)
 From Coq Require Import List NArith ZArith.
 From Dials Require Import Base.Outcome Base.Runes Text.CaseConv Text.GoCamelFacts Text.ParseInt Text.Quote
-  Text.Split Text.ParseString Text.CasePipeline Text.NoPanicProofs.
+  Text.Split Text.ParseString Text.CasePipeline Text.CaseTitle Text.NoPanicProofs.
 Import ListNotations.
 
 (* ---- tagformat/caseconversion: the eight decoders ---- *)
@@ -44,6 +44,9 @@ Proof. exact extract_total. Qed.
    rune list ---- *)
 Theorem encode_then_decode_total : forall e d ws, total (decode_by d (encode_by e ws)).
 Proof. exact encode_then_decode_total_l. Qed.
+(* the same through the faithful model of x/text's title casing (Text/CaseTitle.v) *)
+Theorem encode_go_then_decode_total : forall e d ws, total (decode_by d (encode_by_go e ws)).
+Proof. exact encode_go_then_decode_total_l. Qed.
 Theorem pipeline_total : forall d1 e d2 s, total (pipeline d1 e d2 s).
 Proof. exact pipeline_total_l. Qed.
 
@@ -91,6 +94,7 @@ Print Assumptions decode_go_camel_total.
 Print Assumptions decode_go_tags_total.
 Print Assumptions extract_initialisms_terminates.
 Print Assumptions encode_then_decode_total.
+Print Assumptions encode_go_then_decode_total.
 Print Assumptions pipeline_total.
 Print Assumptions parse_number_int_total.
 Print Assumptions parse_number_uint_total.
